@@ -4,7 +4,7 @@ import vdriver as V
 import C15
 
 H = "c12.c"
-ALLOC = ["-Dmalloc=verif_malloc", "-Dcalloc=verif_calloc", "-Drealloc=verif_realloc", "-Dstrdup=verif_strdup"]
+ALLOC = ["-DVERIF_BUILTIN_MEM", "-Dmalloc=verif_malloc", "-Dcalloc=verif_calloc", "-Drealloc=verif_realloc", "-Dstrdup=verif_strdup"]
 STUBS = ["verif_err.c", "verif_libc.c", "verif_alloc.c"]
 
 # script name -> (entry, defines, sources, K = number of allocations in the fault-free run, unwind)
@@ -16,7 +16,7 @@ SCRIPTS = {
     "vnacal": ("h_script_vnacal", ["-DS_VNACAL", "-DVERIF_CUT_rfi_after_search=__CPROVER_assume(0)"],
                ["vnacal_create.c", "vnacal_free.c", "vnacal_parameter.c", "vnacal_make_scalar_parameter.c",
                 "vnacal_make_vector_parameter.c", "vnacal_make_unknown_parameter.c", "vnacal_delete_parameter.c",
-                "vnacal_error.c", "vnacal_layout.c", "vnacal_rfi.c"], 0, 10),
+                "vnacal_error.c", "vnacal_layout.c", "vnacal_rfi.c", "vnacal_calibration.c"], 0, 18),
 }
 _K = {}
 
@@ -58,7 +58,7 @@ def measure_k(name):
 def jobs(tier):
     J = []
     for name, (entry, defs, srcs, _k, unw) in SCRIPTS.items():
-        if name == "vnadata_addf" and tier == "quick":
+        if name in ("vnadata_addf", "vnacal") and tier == "quick":
             continue
         K = measure_k(name)
         for k in range(0, K + 1):
@@ -67,7 +67,7 @@ def jobs(tier):
                            union_struct=True, kind="proof", canary=(k == 0),
                            functions=["allocation sites reached by script '%s'" % name],
                            bound="scripted history '%s', allocation index k=%d of %d failed once; values symbolic" % (name, k, K),
-                           timeout=500))
+                           timeout=(300 if tier == 'quick' else 1500)))
     return J
 
 
